@@ -52,6 +52,7 @@ from vlib.compare import Err, exc_kind
 from props import C09 as _c09
 
 ID = 'C10'
+PYBASIS_METHODS = ['__init__', 'init_default']   # basis.py methods re-translated and proved equal to the hand model each run
 RTOL = 1e-9
 ATOL = 1e-11
 KNOT_RTOL = 1e-12
